@@ -6,7 +6,7 @@ Tie:    harness/simdrv.c <-> Drivers/SimMain.lean on generated scenarios (profil
 """
 import simcheck
 
-PROFILES = ['timers', 'lifecycle', 'resource', 'mixed', 'cond', 'pool', 'timerso']
+PROFILES = ['timers', 'lifecycle', 'resource', 'mixed', 'cond', 'pool', 'timerso', 'coincide']
 
 
 def run(chk):
